@@ -132,6 +132,18 @@ def dispatch_sites(prog, m, fn, own_only=False):
         pa = plain_arm(m, d)
         ma = mux_arm(m, d)
         out.append(Dispatch(d, list(ma), list(pa), _arm_call(ma), _arm_call(pa), "if"))
+    # op = A(...) if isinstance(source, MuxObservable) else B(...)
+    for n in ast.walk(fn):
+        if isinstance(n, ast.IfExp) and (not own_only or m.enclosing_function(n) is fn):
+            t = _dispatch_test(n)
+            if t is None:
+                continue
+            dn = dotted_name(t.args[1])
+            ref = prog.resolve_dotted(m, dn) if dn else None
+            if ref is None or ref[0] != "class" or ref[2].name != "MuxObservable":
+                continue
+            a, b = (n.orelse, n.body) if _negated(n) else (n.body, n.orelse)
+            out.append(Dispatch(n, [a], [b], _call_triple(a), _call_triple(b), "ifexp"))
     helpers = _dispatch_helpers(prog)
     if helpers and fn not in helpers:
         for n in ast.walk(fn):
@@ -368,16 +380,26 @@ def rule_ag3_small(ctx: Ctx):
                 continue
             loops = [e for e in p.trace if e.k == "loopiter"]
             over = None
+            elem_terms = set()
             if loops:
-                over = "item" if loops[0].iter in (EVITEM, EV) else show(loops[0].iter)
+                it_ = loops[0].iter
+                lv = loops[0].var
+                if it_ in (EVITEM, EV):
+                    over = "item"
+                    elem_terms = {lv}
+                elif it_[0] == "call" and it_[1] == ("builtin", "enumerate") and len(it_[2]) == 1 and it_[2][0] in (EVITEM, EV):
+                    over = "item"                       # for _, x in enumerate(item)
+                    elem_terms = {("sub", lv, ("const", 1))}
+                else:
+                    over = show(it_)
             ems = [m for m in emissions(p) if m.method == "on_next"]
             elems = []
             for m in ems:
                 if m.event is not None and (m.event.how == "replace" or (kind is not None and m.event.kind == "Next")):
                     # i._replace(item=elem)  /  OnNextMux(key=i.key, item=elem, store=i.store)
-                    elems.append("elem" if m.event.payload[0] == "loopvar" and m.event.keyclass == SAME else "other")
+                    elems.append("elem" if m.event.payload in elem_terms and m.event.keyclass == SAME else "other")
                 else:
-                    elems.append("elem" if m.eff.arg[0] == "loopvar" else "other")
+                    elems.append("elem" if m.eff.arg in elem_terms else "other")
             if any(e.k == "loopexit" and e.d.get("broke") for e in p.trace) or (p.outcome == "return" and loops):
                 elems.append("loop-left-early")
             out.add((over, tuple(elems)))
